@@ -340,9 +340,12 @@ Definition pa_check_collaterals (cw : bool) (t : tx) (u : utxo) (pp : params) : 
   coll_number c pp 408 409 ;;;
   coll_address c u (own_era cw) 403 410 411 ;;;
   pa_coll_assets cw t u pp.
+(* check_fee: Babbage asks for collateral whenever redeemers are present (reference scripts);
+   Conway only when Plutus scripts sit in the witness set *)
+Definition pa_needs_collateral (cw : bool) (t : tx) : bool := pa_plutus cw t || (negb cw && is_some (w_redeemers t)).
 Definition pa_check_fee (dev cw : bool) (t : tx) (u : utxo) (pp : params) : outcome unit :=
   check_min_fee dev t pp 407 ;;;
-  if pa_plutus cw t then pa_check_collaterals cw t u pp else ok.
+  if pa_needs_collateral cw t then pa_check_collaterals cw t u pp else ok.
 
 (* conway_add_minted_non_zero *)
 (* conway_add_same_non_zero_policy_assets: the sum is taken in i128 and must stay within u64;
